@@ -626,6 +626,8 @@ class Domain(object):
             if node.frame.parent is None:
                 state = state.with_extra(reraised_by=node.info['handler'][2])
             return [(None, self.on_stmt(node, state))]
+        if k == 'truth':
+            return [('next', state), ('exc', state.with_extra(exc_src=node.info.get('what', k)))]
         if k in ('subscript', 'compare'):
             outs = [('next', self.on_stmt(node, state))]
             ex = self.partial_op_raises(node, state)
